@@ -407,7 +407,7 @@ pub fn bytes_strategy(_tier: Tier) -> BoxedStrategy<Case> {
 pub fn property() -> Property {
     Property {
         id: "C03",
-        rule: "operation histories (<=40 ops quick / <=150 thorough) over GraphMap with keys from a pool of 8 values (i32 incl. MIN, and (i8,bool)), Directed/Undirected, hashers RandomState / Fx / aHash / an all-colliding constant hasher: add_node, add_edge (new, existing, self-loop, reciprocal), remove_edge and remove_node (arbitrary and live targets, undirected edges named by either orientation), clear, extend, from_edges, weight writes (edge_weight_mut, IndexMut, all_edges_mut), into_graph/from_graph, clone; after every step every query for every pool key and pair, the whole-graph iterators and the to_index/from_index numberings are compared with a BTreeSet/BTreeMap model; non-trivial = a removal at a node with >= 3 incident edges (adjacency swap_remove) followed by a later add_edge; distinct by fingerprint of the op sequence",
+        rule: "operation histories (<=40 ops quick / <=150 thorough) over GraphMap with keys from a pool of 8 values (i32 incl. MIN, and (i8,bool)), Directed/Undirected, hashers RandomState / Fx / aHash / an all-colliding constant hasher: add_node, add_edge (new, existing, self-loop, reciprocal), remove_edge and remove_node (arbitrary and live targets, undirected edges named by either orientation), clear, extend, from_edges, weight writes (edge_weight_mut, IndexMut, all_edges_mut), into_graph/from_graph, clone; after every step every query for every pool key and pair, the whole-graph iterators and the to_index/from_index numberings are compared with a BTreeSet/BTreeMap model; non-trivial = a removal at a node with >= 3 incident edges (adjacency swap_remove) followed by a later add_edge; distinct by fingerprint of the op sequence; the *-from-bytes sub-checks feed the same interpreter with histories decoded from generated byte strings by the libFuzzer codec (all operation kinds equally likely, up to the thorough-tier length)",
         assumptions: &["EdgeIndexable is exercised only with ids yielded by edge_references (canonical orientation)"],
         both_profiles: false,
         subs: vec![sub_fuzz("graphmap/history", 500_000, 5_000_000, strategy, run, fuzz_domain), sub("graphmap/history-from-bytes", 300_000, 5_000_000, bytes_strategy, run)],
